@@ -25,7 +25,7 @@ def lg_cases(draw, tier="quick"):
     domk = draw(st.sampled_from(["default", "cont1d", "kl", "step", "default", "cont1d"]))
     dom = draw(gen.geom1d_spec(n, [domk]))
     npar = gen.geom_par_dim(dom)
-    c = {"n": n, "m": m, "dom": dom, "backing": draw(st.sampled_from(["matrix", "function"])),
+    c = {"n": n, "m": m, "dom": dom, "backing": draw(st.sampled_from(["matrix", "function", "function", "view"])),
          "A": draw(gen.mat(m, n, -1, 1)),
          "noise_form": draw(st.sampled_from(["cov_scalar", "cov_vector", "cov_matrix", "prec_scalar", "prec_matrix", "sqrtprec_matrix", "sqrtcov_vector"])),
          "prior_form": draw(st.sampled_from(["cov_scalar", "cov_vector", "cov_matrix", "prec_vector", "sqrtprec_matrix", "sqrtcov_scalar"])),
@@ -37,7 +37,23 @@ def lg_cases(draw, tier="quick"):
          # the covariance materialised beforehand by the public compute_cov() (opens the closed-form route for Gaussians given by
          # prec / sqrtprec / sqrtcov); a user-supplied starting point for MAP
          "compute_cov": draw(st.sampled_from([False, False, True])), "map_x0": draw(st.sampled_from(["none", "none", "vector"])),
-         "x0": draw(gen.vec(npar, -2, 2))}
+         "x0": draw(gen.vec(npar, -2, 2)),
+         # overall scale of noise and prior standard deviations (1e-5: covariances ~1e-10)
+         "scale_pow": draw(st.sampled_from([0, 0, 0, -5])),
+         # the prior object is first built with other values, its covariance materialised, then it is given its values
+         "reassign_after_cov": draw(st.sampled_from([False, False, True]))}
+    if c["backing"] == "view":
+        # function-backed model whose forward returns a view of its input (restriction to the first entries)
+        c["m"] = m = min(m, n)
+        c["A"] = [[1.0 if j == i else 0.0 for j in range(n)] for i in range(m)]
+        c["nvar"], c["data"] = c["nvar"][:m], c["data"][:m]
+        c["NG"] = [row[:m] for row in c["NG"][:m]]
+        c["dom"] = draw(gen.geom1d_spec(n, ["default", "cont1d"]))
+        npar2 = n
+        if npar2 != npar:
+            c["pvar"] = draw(st.lists(gen.logpos(-0.7, 0.7), min_size=npar2, max_size=npar2))
+            c["PG"] = draw(gen.mat(npar2, npar2, -0.4, 0.4))
+            c["pmean"], c["probe"], c["x0"] = draw(gen.vec(npar2, -1, 1)), draw(gen.vec(npar2, -1, 1)), draw(gen.vec(npar2, -2, 2))
     return c
 
 
@@ -45,6 +61,9 @@ def lg_cases(draw, tier="quick"):
 def nl_cases(draw, tier="quick"):
     c = draw(lg_cases(tier))
     c["nonlinear"] = True
+    c["scale_pow"] = 0
+    if c["backing"] == "view":
+        c["backing"] = "function"
     c["cc"] = draw(st.sampled_from([0.2, 0.5]))
     c["dom"] = draw(gen.geom1d_spec(c["n"], ["default", "cont1d"]))
     npar = c["n"]
@@ -99,18 +118,37 @@ def build(c):
         model = cuqi.model.Model(F, m, dom, jacobian=J)
     elif c["backing"] == "matrix":
         model = cuqi.model.LinearModel(Am, range_geometry=m, domain_geometry=dom)
+    elif c["backing"] == "view":
+        def vadj(y):
+            out = np.zeros(n)
+            out[:m] = np.asarray(y)
+            return out
+        model = cuqi.model.LinearModel(lambda x: np.asarray(x)[:m], vadj, range_geometry=m, domain_geometry=dom)
     else:
         model = cuqi.model.LinearModel(lambda x: Am @ x, lambda y: Am.T @ y, range_geometry=m, domain_geometry=dom)
     npar = model.domain_dim
     nkw, Se = form_arg(c["noise_form"], c["nvar"], c["NG"])
     pkw, Sx = form_arg(c["prior_form"], c["pvar"], c["PG"])
-    mu = A(c["pmean"]) if c["pmean_kind"] == "vector" else np.zeros(npar)
-    x = cuqi.distribution.Gaussian(mu.copy(), **pkw, geometry=dom, name="x")
+    sc = 10.0 ** c.get("scale_pow", 0)
+    if sc != 1.0:
+        fac = {"cov": sc ** 2, "prec": sc ** -2, "sqrtcov": sc, "sqrtprec": 1 / sc}
+        (k1, v1), = nkw.items()
+        (k2, v2), = pkw.items()
+        nkw, pkw, Se, Sx = {k1: v1 * fac[k1]}, {k2: v2 * fac[k2]}, Se * sc ** 2, Sx * sc ** 2
+    mu = (A(c["pmean"]) if c["pmean_kind"] == "vector" else np.zeros(npar)) * sc
+    if c.get("reassign_after_cov"):
+        (k2, v2), = pkw.items()
+        x = cuqi.distribution.Gaussian(mu * 0.5 + 0.1 * sc, **{k2: v2 * 3.0}, geometry=dom, name="x")
+        x.compute_cov()
+        x.mean = mu.copy()
+        setattr(x, k2, v2)
+    else:
+        x = cuqi.distribution.Gaussian(mu.copy(), **pkw, geometry=dom, name="x")
     y = cuqi.distribution.Gaussian(model(x), **nkw, geometry=m, name="y")
     if c.get("compute_cov"):
         x.compute_cov()
         y.compute_cov()
-    BP = cuqi.problem.BayesianProblem(y, x, y=A(c["data"]))
+    BP = cuqi.problem.BayesianProblem(y, x, y=A(c["data"]) * sc)
     return BP, model, Se, Sx, mu
 
 
@@ -126,7 +164,8 @@ def effective_matrix(model):
 
 def tags_of(c):
     return {"dom": c["dom"]["kind"], "backing": "nonlinear" if c["nonlinear"] else c["backing"], "noise": c["noise_form"], "prior": c["prior_form"],
-            "pmean": c["pmean_kind"], "compute_cov": bool(c.get("compute_cov")), "map_x0": c.get("map_x0", "none")}
+            "pmean": c["pmean_kind"], "compute_cov": bool(c.get("compute_cov")), "map_x0": c.get("map_x0", "none"),
+            "scale_pow": c.get("scale_pow", 0), "reassign_after_cov": bool(c.get("reassign_after_cov"))}
 
 
 def nontrivial(c):
@@ -161,7 +200,7 @@ def run_linear(c, rec):
         raise Violation(f"building the Bayesian problem failed: {type(built).__name__}: {built}")
         return
     BP, model, Se, Sx, mu = built
-    b = A(c["data"])
+    b = A(c["data"]) * 10.0 ** c.get("scale_pow", 0)
     Aeff = effective_matrix(model)
     Sei = np.linalg.inv(Se)
     Lam = Aeff.T @ Sei @ Aeff + np.linalg.inv(Sx)
@@ -189,7 +228,8 @@ def run_linear(c, rec):
         require(isinstance(xm, cuqi.array.CUQIarray) and xm.geometry == BP.posterior.geometry, "MAP estimate does not carry the posterior geometry")
         check_maximiser(BP.posterior, xm_arr, probe, sd, "MAP", 1e-9 if route == "direct" else 1e-5)
     # ---------------- ML (well posed when A has full column rank)
-    if Aeff.shape[0] >= Aeff.shape[1] and np.linalg.cond(Aeff) < 1e3 and np.min(np.linalg.svd(Aeff, compute_uv=False)) > 1e-6:
+    # (ML goes through a general-purpose optimiser with absolute tolerances: only judged at unit scale)
+    if c.get("scale_pow", 0) == 0 and Aeff.shape[0] >= Aeff.shape[1] and np.linalg.cond(Aeff) < 1e3 and np.min(np.linalg.svd(Aeff, compute_uv=False)) > 1e-6:
         xml_ref = np.linalg.solve(Aeff.T @ Sei @ Aeff, Aeff.T @ Sei @ b)
         refused, xl = refuses(lambda: BP.ML(disp=False))
         if refused:
@@ -233,8 +273,10 @@ def run_linear(c, rec):
     Bm = X[:, 1:n + 1] - a[:, None]
     require(np.max(np.abs(a - xstar) / sd) <= 1e-6 * max(1.0, np.max(np.abs(xstar) / sd)), "direct sampling: offset of the draws is not the closed-form posterior mean",
             got=a, want=xstar)
-    require(close(Bm @ Bm.T, C, 1e-6), "direct sampling: covariance of the draws is not the closed-form posterior covariance", got=Bm @ Bm.T, want=C)
-    require(close(X[:, n + 1], a + Bm @ E[n + 1], 1e-8), "direct sampling: draws are not affine in the normal vector")
+    require(maxdiff(Bm @ Bm.T, C) <= 1e-6 * float(np.max(np.abs(C))), "direct sampling: covariance of the draws is not the closed-form posterior covariance",
+            got=Bm @ Bm.T, want=C)
+    require(maxdiff(X[:, n + 1], a + Bm @ E[n + 1]) <= 1e-8 * (float(np.max(np.abs(a))) + float(np.max(np.abs(Bm)))),
+            "direct sampling: draws are not affine in the normal vector")
     require([i for i, _ in log] == list(range(n + 2)) and all(maxdiff(s, X[:, i]) == 0 for i, s in log), "direct sampling: callback not called once per draw with that draw")
 
 
